@@ -20,5 +20,8 @@ theorem batch_rows_tie : Generated.C02.mergeBatchMaxRows = C02.cfg.batchRows := 
 /-- `mergeBatch` cuts a full batch only between data points (F57 repaired): the function `queryMergeBatch_spec` is about -/
 theorem batch_cut_tie : Generated.C02.batchCutBetweenPoints = C02.cfg.batchFinishRun := rfl
 theorem batch_replace_strict_tie : Generated.C02.batchReplaceStrict = true := rfl
+/-- `sortedMIterator.loadOneGroup` replaces the entry STORED under (series, timestamp) iff the new copy's version is
+    greater: `upsert` in `Store.nodeMerge` -/
+theorem node_dedup_tie : Generated.C02.nodeDedupGreaterVersion = true := rfl
 
 end Banyan.Tie.C02
